@@ -18,13 +18,13 @@ def absorb(v, res, out, rc, what):
         raise vlib.Broken("%s: driver wrote no result (rc=%s):\n%s" % (what, rc, out[-3000:]))
     if res.get("broken"):
         raise vlib.Broken("%s: driver could not execute: %s" % (what, res["broken"][:5]))
-    for f in res.get("violations", []):
+    for f in res.get("violations") or []:
         v.violation(f["key"], f.get("text", ""), f)
-    nd = len(res.get("drift", []))
+    nd = len(res.get("drift") or [])
     if nd:
         v.notes.append("%s: %d model-drift notes (model and code differ without violating the property), first: %s"
                        % (what, res.get("counters", {}).get("drift", nd), res["drift"][0].get("text")))
-    for s in res.get("samples", []):
+    for s in res.get("samples") or []:
         v.sample(s)
     if rc != 0 and not res.get("violations"):
         raise vlib.Broken("%s: driver exited %s without reporting a violation:\n%s" % (what, rc, out[-3000:]))
